@@ -125,6 +125,11 @@ def rrule_text(rule):
         # after it the (366 - n)-th day from the END of the year
         n = rule[1]
         return "FREQ=YEARLY;BYYEARDAY=%d" % (n if n < 60 else -(366 - n))
+    if v == 5 and rule[0] == "M":
+        # once a year spelled as "every twelfth month" from DTSTART's month
+        _, m, w, d, _t = rule
+        return "FREQ=MONTHLY;INTERVAL=12;BYDAY=%+d%s" % (
+            -1 if w == 5 else w, WD[d])
     if v == 1:
         t = t.replace("BYDAY=+", "BYDAY=")
     elif v == 2:
@@ -309,7 +314,8 @@ def generate(cls, rng):
                           "extra:unclosed_component", "no_components",
                           "bad_offset", "extra:dtstart_param",
                           "extra:offset_param",
-                          "extra:wrong_component_end"])
+                          "extra:wrong_component_end",
+                          "component_case"])
         # alone, or next to a well-formed neighbour in the same file (the
         # malformed block first or second)
         other, other_form = gen_zone_spec(rng)
@@ -347,7 +353,7 @@ def generate(cls, rng):
               # first onset year: 1990, or (rarely) 9990, so that the probed
               # years run up to 9999, the last one a datetime can hold
               y0=9990 if rng.random() < 0.04 else 1990,
-              rrule_spelling=rng.choice([0, 0, 0, 1, 2, 3, 4, 4]),
+              rrule_spelling=rng.choice([0, 0, 0, 1, 2, 3, 4, 4, 5, 5]),
               dup_tzid=rng.random() < 0.06,
               prop_order=rng.choice([0, 0, 0, 1, 2, 3, 4, 5]),
               calendars=rng.choice(["one", "one", "one", "each"]),
@@ -813,6 +819,19 @@ def execute_bad(scenario, ctx):
     if how == "bad_offset":
         lines = [ln.replace("TZOFFSETTO:", "TZOFFSETTO:1") if
                  ln.startswith("TZOFFSETTO:") else ln for ln in lines]
+    proper = None
+    if how == "component_case":
+        # component names in another letter case ("BEGIN:Daylight"): unknown
+        # components to the unchanged tree (ValueError). A reader that is
+        # lenient about case is acceptable too -- if it then reads the zone
+        # right (dst() included)
+        proper = "\n".join(lines) + "\n"
+        style = (len(proper) % 3)
+        conv = [str.title, str.lower, lambda s: s[0] + s[1:].lower()][style]
+        lines = [ln.split(":")[0] + ":" + conv(ln.split(":", 1)[1])
+                 if ln in ("BEGIN:DAYLIGHT", "END:DAYLIGHT",
+                           "BEGIN:STANDARD", "END:STANDARD") else ln
+                 for ln in lines]
     pos = scenario.get("pos", "alone")
     if pos != "alone" and scenario.get("other"):
         good = vtimezone(scenario["other"], "Zone/Two",
@@ -835,8 +854,24 @@ def execute_bad(scenario, ctx):
         ctx.violation("C17.malformed_other_exception",
                       dict(how=how, exc=type(e).__name__, msg=str(e)[:160]))
     else:
-        ctx.violation("C17.malformed_accepted",
-                      dict(how=how, text=text[:400]))
+        if proper is not None:
+            ctx.probe("bad.lenient_reader_judged")
+            good = tz.tzical(io.StringIO(proper)).get()
+            for y in (1991, 1992, 1993):
+                for m in range(1, 13):
+                    d = datetime.datetime(y, m, 15, 12, tzinfo=tz.UTC)
+                    a, b = d.astimezone(z), d.astimezone(good)
+                    ga = (a.utcoffset(), a.tzname(), a.dst())
+                    gb = (b.utcoffset(), b.tzname(), b.dst())
+                    if ga != gb:
+                        ctx.violation("C17.lenient_but_wrong",
+                                      dict(how=how, at=d.isoformat(),
+                                           got=repr(ga), want=repr(gb),
+                                           text=text[:400]))
+                        break
+        else:
+            ctx.violation("C17.malformed_accepted",
+                          dict(how=how, text=text[:400]))
     finally:
         K.set_budget(None)
 
